@@ -14,8 +14,8 @@
    Shared / mutable / unchecked access are ONE function in the model (`c_get`); that the three
    Rust accessors resolve to the same address is cross-checked by the harness on every probe. *)
 From Coq Require Import List ZArith NArith Bool Arith Permutation.
-From EasyML Require Import Base.Sx Model.Shape Model.Views Proofs.ShapeP Proofs.C01P
-  Proofs.C02Lemmas Proofs.C02P Proofs.C02Q Proofs.C02Inj Proofs.C02W Proofs.C02Lin.
+From EasyML Require Import Base.Sx Model.Shape Model.Views Model.ViewsMut Proofs.ShapeP Proofs.C01P
+  Proofs.C02Lemmas Proofs.C02P Proofs.C02Q Proofs.C02Inj Proofs.C02W Proofs.C02Lin Proofs.C02Mut.
 Import ListNotations.
 Open Scope N_scope.
 
@@ -137,6 +137,23 @@ Theorem C02_write_exact : forall v c, v_ctor v = Ok c -> usize_view c -> NoDup (
     i1 <> i2 -> c_get c i1 <> c_get c i2.
 Proof. exact (fun v c H U N => view_write_exact c (ctor_wf v c H) U N). Qed.
 
+(* ---- mutating the source through source_ref_mut() ----
+   TensorReverse / TensorRename (and TensorView) hand out `&mut` to their source.  If the tensor
+   reached that way is reshaped (`reshape_mut`: other lengths and names, same element count), the
+   SAME view object (stored fields unchanged, Model/ViewsMut.v `c_reshape`) still satisfies the
+   whole contract against the NEW shape: valid shape, presence exactly inside it, injectivity,
+   in-bounds resolution, and the leaf keeps its element count. *)
+Theorem C02_source_mutation_keeps_contract : forall v c sh' c', v_ctor v = Ok c ->
+  reshape_mut c sh' = Some (Ok c') ->
+  (valid_shape (c_shape c') /\
+   forall idx, length idx = length (c_shape c') ->
+     (c_get c' idx <> None <-> in_range idx (lens_of (c_shape c')))) /\
+  (forall i1 i2, in_range i1 (lens_of (c_shape c')) -> in_range i2 (lens_of (c_shape c')) ->
+     c_get c' i1 = c_get c' i2 -> i1 = i2) /\
+  (forall idx l off, c_get c' idx = Some (l, off) -> exists n, In (l, n) (c_leaves c') /\ off < n) /\
+  map snd (c_leaves c') = map snd (c_leaves c).
+Proof. exact reshape_contract. Qed.
+
 (* ---- linear layout ----
    Whenever a constructed view (ANY term, any depth) claims DataLayout::Linear(order):
    `order` is a permutation of the view's dimension names, TensorAccess::from_memory_order
@@ -216,6 +233,7 @@ Print Assumptions C02_ctor_lenient_clips.
 Print Assumptions C02_ctor_strict_outside.
 Print Assumptions C02_injective.
 Print Assumptions C02_write_exact.
+Print Assumptions C02_source_mutation_keeps_contract.
 Print Assumptions C02_linear_layout.
 Print Assumptions C02_linear_layout_enumerated.
 Print Assumptions C02_transpose_layout_as_written_refuted.
